@@ -270,7 +270,8 @@ def x_case(ctx, case):
                       and (call["stop_time"] == now if now is not None
                            else call["stop_time"] is not None and call["stop_time"] not in H.TIMES))
                 if spec["form"] == "exc":
-                    ok = ok and got_details is not None and spec["token"].encode() in got_details.get("traceback", b"")
+                    ok = (ok and got_details is not None and spec["token"].encode() in got_details.get("traceback", b"")
+                          and H.LATER_FRAME not in got_details.get("traceback", b""))    # (the triple handed in, nothing later)
                 elif spec["form"] in ("details", "reason"):
                     ok = ok and got_details == want_details
                 else:
